@@ -99,10 +99,12 @@ class ParameterSection(Micheline, prim='parameter', args_len=1):
 
     def to_parameters(self, mode='readable') -> Dict[str, Any]:
         entrypoint, item = self.root_name, self.item
-        if isinstance(self.item, OrType):
-            flat_values = self.item.get_flat_values(entrypoints=True)
-            assert isinstance(flat_values, dict) and len(flat_values) == 1, f'expected named type'
-            entrypoint, item = next(iter(flat_values.items()))
+        # use the innermost annotated node on the path of the actual value (the root entrypoint if there is none)
+        node = self.item
+        while isinstance(node, OrType):
+            node = node.resolve()
+            if type(node).field_name:
+                entrypoint, item = type(node).field_name, node
         return {
             'entrypoint': entrypoint,
             'value': item.to_micheline_value(mode=mode, lazy_diff=None),
